@@ -9,6 +9,8 @@ CONSTANTS
   Seed = TRUE
   EarliestLow = TRUE
   Guard = TRUE
+  Tendermint = FALSE
+  ZeroOk = TRUE
 INIT TInit
 NEXT TNext
 POSTCONDITION Post
